@@ -66,7 +66,7 @@ class MetaData:
     def _read(self):
         if not self._path.exists():
             return {}
-        with open(self._path, 'r') as fp:
+        with open(self._path, 'r', encoding='utf-8') as fp:
             return json.load(fp)
 
     def get(self, *args):
